@@ -262,7 +262,7 @@ def stepDb (st : State) (toks : List String) : State × String :=
   | ["idx.get", name, c, k] =>
     match Hex.decode name, parseCmp c, Hex.decode k with
     | some name, some c, some k =>
-      (st, match Db.indexGetKeys Facts.secondaryGetChecksIndexName st.db name k c with
+      (st, match Db.indexGetKeys Facts.secondaryGetChecksIndexName Facts.secondaryGetEndOfKeySpaceSafe st.db name k c with
         | .found pk sk =>
           "found(pk=" ++ Hex.encode pk ++ ",sk=" ++ Hex.encode sk ++ ") " ++ showGet (Db.get st.db pk .equal true)
         | .notFound => "notfound"
